@@ -55,6 +55,7 @@ var c20State struct {
 	args    []any
 	marker  any
 	mode    int
+	onEnter func() // run when a table function is entered (ends the evaluation's context while the function runs)
 }
 
 func c20anys[T any](xs []T) []any {
@@ -67,6 +68,9 @@ func c20anys[T any](xs []T) []any {
 
 func c20enter(idx int, ctx context.Context, fixed []any, rest []any) int {
 	c20State.entered++
+	if c20State.onEnter != nil {
+		c20State.onEnter()
+	}
 	c20State.idx = idx
 	c20State.args = append(append([]any{}, fixed...), rest...)
 	c20State.marker = nil
@@ -493,6 +497,38 @@ func init() {
 					res2, err2, p2 := lx.Eval(ctx, wrapped, ns)
 					if p2 != nil || err2 != nil || res2 != 99 {
 						r.Violation(what+" inside a bound function is not catchable", fmt.Sprintf("res=%v err=%v panic=%v", res2, err2, p2))
+						break
+					}
+				}
+				// the same failures when the evaluation's context ends while the function runs (the function's
+				// own error or panic value is what the caller gets to see; the context's end does not replace it)
+				for _, mode := range []int{c20err, c20panicErr, c20errWrap, c20panicWrap} {
+					if (mode == c20err || mode == c20errWrap) && t.NumOut() == 0 {
+						continue
+					}
+					live, cancel := context.WithCancel(ctx)
+					c20State.entered, c20State.mode = 0, mode
+					c20State.onEnter = cancel
+					_, err, p := lx.Eval(live, types.List{Val: el}, ns)
+					c20State.onEnter = nil
+					cancel()
+					r.Exec(1)
+					what := map[int]string{c20err: "returned error", c20panicErr: "panic(error)", c20errWrap: "returned Go error wrapping a lisp error", c20panicWrap: "panic(Go error wrapping a lisp error)"}[mode] + ", context ended while the function ran"
+					want := map[int]error{c20err: ErrBoom, c20panicErr: ErrPan, c20errWrap: c20WrapErr, c20panicWrap: c20WrapErr}[mode]
+					if p != nil {
+						r.Violation("panic inside a bound function escapes: "+what, p.String())
+						break
+					}
+					if c20State.entered != 1 {
+						r.Violation("function not entered exactly once: "+what, fmt.Sprint(c20State.entered))
+						break
+					}
+					if err == nil {
+						r.Violation(what+" inside a bound function is lost", "no error returned")
+						break
+					}
+					if !errors.Is(err, want) {
+						r.Violation(what+": the function's own Go error is no longer reachable with errors.Is", err.Error())
 						break
 					}
 				}
